@@ -14,7 +14,9 @@ import (
 	"os/exec"
 	"path/filepath"
 	"strings"
+	"sync"
 	"sync/atomic"
+	"time"
 
 	config_util "github.com/prometheus/common/config"
 	k8sd "github.com/prometheus/prometheus/discovery/kubernetes"
@@ -801,6 +803,61 @@ func c16Wired(w *core.WorkerCtx, idx int, r *core.Rng, spec *cfggen.Spec, res *c
 				res.Witness = map[string]interface{}{"kind": "wired in-process", "config": text, "step": st.name}
 			}
 			break
+		}
+	}
+	// two overlapping pushes (HTTP handler goroutines, no lock in the manager): the push of the OLD content has
+	// published it and is held inside the first reload callback; the push of the NEW content runs to
+	// completion; the old push resumes. Whatever hash the manager reports afterwards must be the hash of
+	// the configuration the components downstream were last given - otherwise the shard is reported in
+	// sync while it runs something else.
+	{
+		oldText := cfggen.Render(spec, cfggen.Style{Indent: 2})
+		if _, err := hashOf(oldText); err == nil && oldText != text {
+			m2 := prom.NewConfigManager()
+			gate, entered := make(chan struct{}), make(chan struct{})
+			var hold atomic.Bool
+			var lastMu sync.Mutex
+			var lastHash, lastRaw string
+			m2.AddReloadCallbacks(
+				func(ci *prom.ConfigInfo) error {
+					if hold.CompareAndSwap(true, false) {
+						close(entered)
+						<-gate
+					}
+					return nil
+				},
+				func(ci *prom.ConfigInfo) error { // stands for scrape manager / injector: what the process really runs
+					lastMu.Lock()
+					lastHash, lastRaw = ci.ConfigHash, string(ci.RawContent)
+					lastMu.Unlock()
+					return nil
+				})
+			hold.Store(true)
+			done := make(chan error, 1)
+			go func() { done <- m2.ReloadFromRaw([]byte(oldText)) }()
+			select {
+			case <-entered:
+				err2 := m2.ReloadFromRaw([]byte(text))
+				close(gate)
+				err1 := <-done
+				if err1 == nil && err2 == nil {
+					res.Execs++
+					res.AddStat("overlapping_pushes", 1)
+					lastMu.Lock()
+					rep := m2.ConfigInfo()
+					if rep.ConfigHash != lastHash || string(rep.RawContent) != lastRaw {
+						res.Violate("C16/wired/reported-hash-is-not-of-the-running-configuration", "two overlapping pushes (old content held in the first reload callback, new content pushed meanwhile): the manager reports hash %s, the components downstream were last given the configuration with hash %s", rep.ConfigHash, lastHash)
+						if res.Witness == nil {
+							res.Witness = map[string]interface{}{"kind": "overlapping pushes", "old": oldText, "new": text}
+						}
+					}
+					lastMu.Unlock()
+				}
+			case <-time.After(30 * time.Second):
+				close(gate)
+				res.Inconcl = "held reload callback was not reached"
+				return
+			}
 		}
 	}
 	// the real sidecar process with --inject.kubernetes-sa-path
